@@ -62,6 +62,21 @@ def get_unslashed_attesting_indices (cfg : Config) (s : State) (attestations : L
 def get_attesting_balance (cfg : Config) (s : State) (attestations : List PendingAttestation) : SM Nat := do
   get_total_balance cfg s (← get_unslashed_attesting_indices cfg s attestations)
 
+/-- The epoch's pending attestations with committees resolved and target/head comparisons made (the head
+comparison only for target-matching attestations, as `get_matching_head_attestations` does). -/
+def resolve_attestations (cfg : Config) (s : State) (epoch : Nat) : SM (List ResolvedAtt) := do
+  let src ← get_matching_source_attestations cfg s epoch
+  if src.isEmpty then return []
+  let root ← get_block_root cfg s epoch
+  src.mapM fun a => do
+    let indices ← get_attesting_indices cfg s a.data a.aggregation_bits
+    let matching_target := decide (a.data.target.root = root)
+    let matching_head ← if matching_target then do
+        pure (decide (a.data.beacon_block_root = (← get_block_root_at_slot cfg s a.data.slot)))
+      else pure false
+    pure { indices := indices, inclusion_delay := a.inclusion_delay, proposer_index := a.proposer_index,
+           matching_target := matching_target, matching_head := matching_head }
+
 /-! ## Altair: participation -/
 
 def get_unslashed_participating_indices (cfg : Config) (s : State) (flag_index epoch : Nat) : SM (List Nat) := do
@@ -164,6 +179,12 @@ def justification_inputs (cfg : Config) (s : State) : SM (Option FFGInputs) := d
     let current_attestations ← get_matching_target_attestations cfg s (get_current_epoch cfg s)
     let previous_target_balance ← get_attesting_balance cfg s previous_attestations
     let current_target_balance ← get_attesting_balance cfg s current_attestations
+    crossCheck (total_active_balance, previous_target_balance, current_target_balance)
+      (total_active_balance_of cfg s.validators (get_current_epoch cfg s),
+       (target_balances_phase0_pure cfg s.validators (← resolve_attestations cfg s (get_previous_epoch cfg s))
+         (← resolve_attestations cfg s (get_current_epoch cfg s))).1,
+       (target_balances_phase0_pure cfg s.validators (← resolve_attestations cfg s (get_previous_epoch cfg s))
+         (← resolve_attestations cfg s (get_current_epoch cfg s))).2) "phase0 target balances"
     some <$> weigh_inputs cfg s total_active_balance previous_target_balance current_target_balance
   else
     let previous_indices ← get_unslashed_participating_indices cfg s TIMELY_TARGET_FLAG_INDEX (get_previous_epoch cfg s)
@@ -371,7 +392,11 @@ def process_rewards_and_penalties (cfg : Config) (s : State) : SM State := do
   -- No rewards are applied at the end of `GENESIS_EPOCH` because rewards are for work done in the previous epoch
   if get_current_epoch cfg s = GENESIS_EPOCH then return s
   if s.fork = .phase0 then
-    apply_deltas s (← get_attestation_deltas cfg s)
+    let s' ← apply_deltas s (← get_attestation_deltas cfg s)
+    crossCheck s'.balances (process_rewards_and_penalties_phase0_pure cfg s.validators s.balances
+      (get_previous_epoch cfg s) (get_current_epoch cfg s) (← get_finality_delay cfg s) (← is_in_inactivity_leak cfg s)
+      (← resolve_attestations cfg s (get_previous_epoch cfg s))) "phase0 rewards and penalties"
+    pure s'
   else
     let flag_deltas ← (List.range PARTICIPATION_FLAG_WEIGHTS.length).mapM (get_flag_index_deltas cfg s)
     let deltas := flag_deltas ++ [← get_inactivity_penalty_deltas cfg s]
